@@ -1,7 +1,6 @@
 //! C17: caches stay within capacity, evict least-recently-used, never serve stale data.
 //! M+S cells: LruMap (4 presets), ConcurrentLruMap (Hash routing), LruPageCache (read/prefetch/invalidate histories).
-//! S-only cells: ConcurrentLruMap RoundRobin/ThreadAffinity routing, SingleLruPageCache, page cache with file
-//! overwrites + invalidation / big presets, CachedBlobStore (3 write strategies, own and shared cache), FsaCache.
+//! S-only cells: ConcurrentLruMap RoundRobin/ThreadAffinity routing, SingleLruPageCache, CachedBlobStore (3 write strategies, own and shared cache), FsaCache.
 use crate::util::*;
 use serde_json::{json, Value};
 use std::collections::HashMap;
@@ -424,13 +423,13 @@ fn pc_history(cx: &mut Ctx, single: bool, preset: u64, capbytes: usize, files: &
                    mops.push(format!("(3, {}, {}, {})", fid, a, b)); mobs.push(coq_n_list(digest(&[]))); }
             _ => {
                 // overwrite [a, a+b) inside the file (same size), then the explicit invalidation the property speaks of
-                modelled = false;
                 let d = &mut contents[fi];
                 let s = (a as usize).min(d.len()); let e = (a as usize).saturating_add(b as usize).min(d.len());
                 if s < e {
                     for (i, x) in d[s..e].iter_mut().enumerate() { *x = x.wrapping_mul(3).wrapping_add(i as u8).wrapping_add(101); }
                     std::fs::write(&paths[fi], &*d).expect("rewrite test file");
-                    match guarded(|| cache.inv_range(fid, s as u64, e - s)) { Ok(Ok(())) => {}, Ok(Err(er)) => fails.push(format!("invalidate_range failed: {}", er)), Err(p) => fails.push(format!("invalidate_range panicked: {}", p)) }
+                    match guarded(|| cache.inv_range(fid, s as u64, e - s)) { Ok(Ok(())) => {}, Ok(Err(er)) => { fails.push(format!("invalidate_range failed: {}", er)); modelled = false; } Err(p) => { fails.push(format!("invalidate_range panicked: {}", p)); modelled = false; } }
+                    mops.push(format!("(4, {}, {}, {})", fid, s, e - s)); mobs.push(coq_n_list(digest(&[])));
                 }
             }
         }
@@ -438,7 +437,7 @@ fn pc_history(cx: &mut Ctx, single: bool, preset: u64, capbytes: usize, files: &
     for p in &paths { let _ = std::fs::remove_file(p); }
     let _ = suspicious_short;
     if let Some(f) = fails.first() { cx.sum.fail(&cell, None, cj.clone(), f); }
-    if single || has_ow { cx.sum.cell_status(&cell, "S-only"); }
+    if single { cx.sum.cell_status(&cell, "S-only"); }
     if modelled && (force || cx.n_pc < cx.budget_pc) {
         cx.n_pc += 1;
         let fs = format!("[{}]", files.iter().zip(fids.iter()).map(|((s, l), f)| format!("({}, ({}, {}))", f, s, l)).collect::<Vec<_>>().join("; "));
@@ -740,7 +739,7 @@ pub fn run(args: &Args) {
     // overwrite + explicit invalidation with every page resident (a cache larger than the file, so that nothing
     // is reloaded by accident): the rewritten range sits inside a page, straddles a boundary or spans pages
     let n_ow = if th { 1500 } else { 150 };
-    for _ in 0..n_ow {
+    for iow in 0..n_ow {
         let flen = *rng.pick(&[2 * ps + 100, 3 * ps + 17, 5 * ps, 4 * ps - 1]);
         let files = vec![(rng.below(200), flen)];
         let mut ops: Vec<POp> = vec![(0, 0, 0, flen)];
@@ -756,7 +755,7 @@ pub fn run(args: &Args) {
             if rng.chance(1, 2) { ops.push((0, 0, 0, flen)); } else { ops.push((0, 0, off.saturating_sub(10), len + 20)); ops.push((5, 0, (off + len).saturating_sub(5), 10)); }
         }
         ops.push((0, 0, 0, flen));
-        pc_history(&mut cx, rng.chance(1, 5), rng.below(4), *rng.pick(&[16 * ps as usize, 64 * ps as usize]), &files, &ops, false);
+        pc_history(&mut cx, rng.chance(1, 5), rng.below(4), *rng.pick(&[16 * ps as usize, 64 * ps as usize]), &files, &ops, iow < n_ow / 3);
     }
     // the confirmed short-last-page witnesses, always
     pc_history(&mut cx, false, 0, 2 * ps as usize, &[(3, 2 * ps + 100)], &[(0, 0, 2 * ps, 200), (0, 0, 2 * ps - 92, 300), (0, 0, 0, 3 * ps)], true);
